@@ -34,7 +34,18 @@ theorem removeConsolidate (s : Sep r f) {prev next : Option Nat}
 theorem addConsolidate (s : Sep r f) {node : Nat} {prev next : Option Nat} (hnode : node ∉ handles r)
     (hp : ∀ p, prev = some p → p ∉ handles r) (hn : ∀ n, next = some n → n ∉ handles r) :
     Sep r (f.addConsolidate node prev next).1 := by
-  unfold Forest.addConsolidate
+  rw [Forest.addConsolidate_eq_old]
+  have hp : ∀ p, f.selfPrev node prev = some p → p ∉ handles r := by
+    intro p h; unfold Forest.selfPrev at h; split at h
+    · exact s.prevSibling_disj hnode h
+    · exact hp p h
+  have hn : ∀ n, f.selfNext node next = some n → n ∉ handles r := by
+    intro p h; unfold Forest.selfNext at h; split at h
+    · exact s.nextSibling_disj hnode h
+    · exact hn p h
+  generalize f.selfPrev node prev = prev at hp
+  generalize f.selfNext node next = next at hn
+  unfold Forest.addConsolidateOld
   split
   · exact s
   · cases f.textOf node with
